@@ -39,6 +39,7 @@ Zone\tModel/Mixed\t2:00\tMDst\tE%sT\t2005\tOct\t30\t1:00u
 Zone\tModel/Late\t1:00\tMLate\tC%sT
 Zone\tModel/Slash\t0:00\tMDst\tGMT/BST
 Zone\tModel/NegSave\t1:00\tMNeg\tIST/GMT
+Zone\tModel/LongAbbrev\t5:30\t-\t+0530
 Zone\tModel/PolicyChange\t-5:00\tMDst\tE%sT\t2005
 \t\t\t-6:00\tMLate\tC%sT
 Zone\tModel/FixedThenDst\t1:00\t-\tAAT\t2004
@@ -617,4 +618,95 @@ def local_time_rule(R, cfg, lib, rid='R4'):
             R.instance(rid, c, f.loc, '%d local times' % n)
             if bad:
                 R.violation(rid, c, f.loc, bad)
+
+
+def history_rule(R, cfg, lib, rid='R7'):
+    """C08 on the model zones through the real TimeZone and processors: two TimeZone values of two different zones share ONE
+    processor object (the documented way to save memory); every sequence of up to three (zone, instant) queries is made - offset, DST
+    offset and abbreviation through TimeZone, which re-binds the processor - and the answers of the last query must be what a fresh
+    processor gives for that zone and instant.  The instants include two years, a New Year, a year outside the zone data (the error
+    value), so the sequences cross every kind of cache refill, re-bind and failed fill."""
+    from . import pipeline
+    from .aeval import AEval, AObj, CxxModule, Raised, Ref
+    from .rules_C04b import _cstring_ops
+    import itertools
+    R.rule(rid, 'through TimeZone values that share one processor, the answer to a query does not depend on the queries made before it (model zones, interpreted in full)', floor=4)
+    infos, TX, _tzdb = compile_models(cfg)
+    swb = pipeline.sweep(cfg, 'basic', text=MODEL_TEXT, tag='models')
+    mod = CxxModule(lib, ['ace_time::'])
+    intr = _cstring_ops()
+    TZ = 'ace_time::TimeZone'
+    fns = {k: [f for f in lib.fns(TZ + '::' + k) if len(f.params) == 1][0] for k in ('getUtcOffset', 'getDeltaOffset', 'getAbbrev')}
+    tomin = lib.fn('ace_time::TimeOffset::toMinutes')
+    iserr = lib.fn('ace_time::TimeOffset::isError')
+    thorough = cfg.tier == 'thorough'
+
+    def call(f, args, recv=None):
+        return AEval(module=mod, intrinsics=intr, typed=True, max_steps=3000000).call_function(f.name, list(args), recv=recv, chosen=CxxModule._Fn(f))
+
+    def text(v):
+        for _ in range(3):
+            if isinstance(v, Ref) and isinstance(v.box, list):
+                v = v.box[v.key:] if isinstance(v.key, int) else v.get()
+            elif isinstance(v, Ref):
+                v = v.get()
+        if isinstance(v, list) and 0 in v:
+            return ''.join(chr(c_) for c_ in v[:v.index(0)])
+        return repr(v)
+
+    def ask(tz, e):
+        off = call(fns['getUtcOffset'], [e], tz)
+        dlt = call(fns['getDeltaOffset'], [e], tz)
+        abb = call(fns['getAbbrev'], [e], tz)
+        return (None if call(iserr, [], off) else call(tomin, [], off), None if call(iserr, [], dlt) else call(tomin, [], dlt), text(abb))
+    instants = [_secs(_dt.datetime(2004, 7, 15, 12)), _secs(_dt.datetime(2005, 1, 15, 12)), _secs(_dt.datetime(2005, 7, 15, 12)), _secs(_dt.datetime(2005, 1, 1, 0, 30)),
+                _secs(_dt.datetime(2005, 10, 30, 0, 30)), _secs(_dt.datetime(2060, 6, 1))]
+    # the second pair of each scope differs in the length of the abbreviation (a buffer that keeps the tail of a longer text shows there)
+    for scope, T, cls, pair, full in (('extended', TX, 'ace_time::ExtendedZoneProcessor', ('Model/Dst', 'Model/Mixed'), True),
+                                      ('extended', TX, 'ace_time::ExtendedZoneProcessor', ('Model/LongAbbrev', 'Model/Slash'), False),
+                                      ('basic', swb.T, 'ace_time::BasicZoneProcessor', ('Model/Dst', 'Model/Late'), True),
+                                      ('basic', swb.T, 'ace_time::BasicZoneProcessor', ('Model/LongAbbrev', 'Model/Slash'), False)):
+        graph = zone_graph(lib, T, scope)
+        if any(z not in graph for z in pair):
+            raise AnalysisError('model zones %s are not in the %s tables' % (pair, scope))
+        mk = [f for f in lib.fns(TZ + '::forZoneInfo') if len(f.params) == 2 and any('%s::ZoneInfo' % scope in (t_ or '') for _p, t_ in f.params)]
+        if not mk:
+            raise AnalysisError('anchor vanished: TimeZone::forZoneInfo(const %s::ZoneInfo*, processor)' % scope)
+        mk = mk[0]
+
+        def zones_on(P):
+            return {z: call(mk, [graph[z] if 'ZoneInfo' in (pt_ or '') else P for (_pn, pt_) in mk.params]) for z in pair}
+        c = '%s:shared-by-%s' % (cls, '+'.join(z.split('/')[-1] for z in pair))
+        bad, n = None, 0
+        try:
+            fresh = {}
+            for z in pair:
+                for e in instants:
+                    fresh[(z, e)] = ask(zones_on(_build(lib, cls))[z], e)
+            short = [(z, e) for z in pair for e in (instants[0], instants[2], instants[5])]
+            if full:
+                queries = [(z, e) for z in pair for e in instants]
+                seqs = list(itertools.product(queries, repeat=2))
+                seqs += list(itertools.product(short, repeat=3)) if thorough else [s_ for s_ in itertools.product(short, repeat=3) if s_[0][0] != s_[1][0]]
+            else:
+                # a winter instant, a summer instant, a year outside the zone data
+                seqs = list(itertools.product([(z, e) for z in pair for e in (instants[1], instants[2], instants[5])], repeat=2))
+            for seq in seqs:
+                P = _build(lib, cls)
+                tzs = zones_on(P)
+                got = None
+                for z, e in seq:
+                    got = ask(tzs[z], e)
+                n += 1
+                z, e = seq[-1]
+                if got != fresh[(z, e)] and bad is None:
+                    bad = 'after the queries %s on one shared processor, %s at %s UTC answers (offset min, DST min, abbreviation) = %s; a fresh processor answers %s' % (
+                        ['%s@%s' % (z_, EPOCH + _dt.timedelta(seconds=e_)) for z_, e_ in seq[:-1]], z, EPOCH + _dt.timedelta(seconds=e), got, fresh[(z, e)])
+        except Raised as x_:
+            bad = bad or 'interpretation raises %s' % x_.what
+        except IndexError as x_:
+            bad = bad or 'a read or write outside an array (%s)' % x_
+        R.instance(rid, c, fns['getUtcOffset'].loc, '%d query sequences' % n)
+        if bad:
+            R.violation(rid, c, fns['getUtcOffset'].loc, bad)
 
